@@ -341,6 +341,9 @@ theorem iterStep_fst (c : Cfg K V) (acc : St K V × List (K × Option V)) (k : K
 theorem iter_eq_foldl (c : Cfg K V) (s : St K V) (lo hi : Option K) (asc : Bool) :
     s.iter c lo hi asc = (s.tree.rangeKeys c lo hi asc).foldl (iterStep c) (s, []) := rfl
 
+theorem iterAll_eq_foldl (c : Cfg K V) (s : St K V) (lo hi : Option K) (asc : Bool) :
+    s.iterAll c lo hi asc = (s.iterKeys c lo hi asc).foldl (iterStep c) (s, []) := rfl
+
 theorem iter_foldl_unmetered (c : Cfg K V) (s : St K V) (hm : s.metered = false) (ks : List K)
     (acc : List (K × Option V)) :
     ks.foldl (iterStep c) (s, acc) =
@@ -364,6 +367,14 @@ theorem iter_unmetered (c : Cfg K V) (s : St K V) (hm : s.metered = false) (lo h
       (s, ((s.tree.rangeKeys c lo hi asc).filter (fun k => !s.deleted c k)).map
             (fun k => (k, view c s k))) := by
   rw [iter_eq_foldl, iter_foldl_unmetered c s hm]
+  simp
+
+theorem iterAll_unmetered (c : Cfg K V) (s : St K V) (hm : s.metered = false) (lo hi : Option K)
+    (asc : Bool) :
+    s.iterAll c lo hi asc =
+      (s, ((s.iterKeys c lo hi asc).filter (fun k => !s.deleted c k)).map
+            (fun k => (k, view c s k))) := by
+  rw [iterAll_eq_foldl, iter_foldl_unmetered c s hm]
   simp
 
 /-! ### reads in general: only the gas counter moves, upwards -/
@@ -463,12 +474,18 @@ theorem iter_gasOnly (c : Cfg K V) (s : St K V) (lo hi : Option K) (asc : Bool) 
   rw [iter_eq_foldl]
   exact iter_foldl_gasOnly c _ (s, [])
 
+theorem iterAll_gasOnly (c : Cfg K V) (s : St K V) (lo hi : Option K) (asc : Bool) :
+    GasOnly s (s.iterAll c lo hi asc).1 := by
+  rw [iterAll_eq_foldl]
+  exact iter_foldl_gasOnly c _ (s, [])
+
 theorem step_read_gasOnly (c : Cfg K V) (s : St K V) (op : Op K V) (hr : op.isRead = true) :
     GasOnly s (step c s op).1 := by
   cases op <;> simp [Op.isRead] at hr
   · exact get_gasOnly c s _
   · exact has_gasOnly c s _
   · exact iter_gasOnly c s _ _ _
+  · exact iterAll_gasOnly c s _ _ _
   · exact GasOnly.refl s
   · exact GasOnly.refl s
 
@@ -478,6 +495,7 @@ theorem step_read_unmetered (c : Cfg K V) (s : St K V) (hm : s.metered = false) 
   · simp [step, get_unmetered c s hm]
   · simp [step, has_unmetered c s hm]
   · simp [step, iter_unmetered c s hm]
+  · simp [step, iterAll_unmetered c s hm]
   · rfl
   · rfl
 
@@ -737,6 +755,7 @@ theorem step_noncommit_versions (c : Cfg K V) (s : St K V) (op : Op K V) (h : op
   | get k => rw [(step_read_gasOnly c s (.get k) rfl).1]; exact ⟨rfl, rfl⟩
   | has k => rw [(step_read_gasOnly c s (.has k) rfl).1]; exact ⟨rfl, rfl⟩
   | iter lo hi asc => rw [(step_read_gasOnly c s (.iter lo hi asc) rfl).1]; exact ⟨rfl, rfl⟩
+  | iterAll lo hi asc => rw [(step_read_gasOnly c s (.iterAll lo hi asc) rfl).1]; exact ⟨rfl, rfl⟩
   | begin => exact ⟨rfl, rfl⟩
   | csess =>
     cases hs : s.sess with
@@ -765,6 +784,7 @@ theorem step_log (c : Cfg K V) (s : St K V) (op : Op K V)
   | get k => rw [(step_read_gasOnly c s (.get k) rfl).1]
   | has k => rw [(step_read_gasOnly c s (.has k) rfl).1]
   | iter lo hi asc => rw [(step_read_gasOnly c s (.iter lo hi asc) rfl).1]
+  | iterAll lo hi asc => rw [(step_read_gasOnly c s (.iterAll lo hi asc) rfl).1]
   | begin => rfl
   | csess =>
     cases hs : s.sess with
@@ -787,6 +807,7 @@ theorem step_gas (c : Cfg K V) (s : St K V) (op : Op K V)
   | get k => exact (step_read_gasOnly c s (.get k) rfl).2.2.2.2
   | has k => exact (step_read_gasOnly c s (.has k) rfl).2.2.2.2
   | iter lo hi asc => exact (step_read_gasOnly c s (.iter lo hi asc) rfl).2.2.2.2
+  | iterAll lo hi asc => exact (step_read_gasOnly c s (.iterAll lo hi asc) rfl).2.2.2.2
   | begin => exact Int.le_refl _
   | csess =>
     cases hs : s.sess with
@@ -811,6 +832,7 @@ theorem step_unmetered (c : Cfg K V) (s : St K V) (hm : s.metered = false) (op :
   | get k => exact (step_read_gasOnly c s (.get k) rfl).2.2.2.1.trans hm
   | has k => exact (step_read_gasOnly c s (.has k) rfl).2.2.2.1.trans hm
   | iter lo hi asc => exact (step_read_gasOnly c s (.iter lo hi asc) rfl).2.2.2.1.trans hm
+  | iterAll lo hi asc => exact (step_read_gasOnly c s (.iterAll lo hi asc) rfl).2.2.2.1.trans hm
   | begin => exact hm
   | csess =>
     cases hs : s.sess with
@@ -833,6 +855,7 @@ theorem step_WF (c : Cfg K V) (s : St K V) (wf : s.WF) (op : Op K V) : (step c s
   | get k => exact (step_read_gasOnly c s (.get k) rfl).WF wf
   | has k => exact (step_read_gasOnly c s (.has k) rfl).WF wf
   | iter lo hi asc => exact (step_read_gasOnly c s (.iter lo hi asc) rfl).WF wf
+  | iterAll lo hi asc => exact (step_read_gasOnly c s (.iterAll lo hi asc) rfl).WF wf
   | begin =>
     refine ⟨wf.1, ?_, wf.2.2⟩
     intro o ho
@@ -1227,6 +1250,54 @@ theorem iter_missing (c : Cfg K V) (s : St K V) (lo hi : Option K) (asc : Bool) 
     | none => rfl
     | some v => exact absurd (mem_listedSess c s _ k hk hd (by simp [hs])) hmiss.2
 
+theorem iterAll_cutoff (c : Cfg K V) (s : St K V) (lo hi : Option K) (asc : Bool) :
+    ∃ n, n ≤ (s.iterKeys c lo hi asc).length ∧
+      s.iterAll c lo hi asc =
+        (s.addGas (iterCost c s ((s.iterKeys c lo hi asc).take n)),
+         listed c s ((s.iterKeys c lo hi asc).take n) ++
+           listedSess c s ((s.iterKeys c lo hi asc).drop n)) ∧
+      (n < (s.iterKeys c lo hi asc).length →
+        s.metered = true ∧
+        s.gas.limit ≤ s.gas.consumed + iterCost c s ((s.iterKeys c lo hi asc).take n)) := by
+  obtain ⟨n, hn, he, hl⟩ := iter_foldl_cutoff c (s.iterKeys c lo hi asc) s []
+  refine ⟨n, hn, ?_, hl⟩
+  rw [iterAll_eq_foldl, he]
+  simp
+
+theorem iterAll_sublist (c : Cfg K V) (s : St K V) (lo hi : Option K) (asc : Bool) :
+    (s.iterAll c lo hi asc).2.Sublist (listed c s (s.iterKeys c lo hi asc)) := by
+  obtain ⟨n, _, he, _⟩ := iterAll_cutoff c s lo hi asc
+  rw [he]
+  have : listed c s (s.iterKeys c lo hi asc) =
+      listed c s ((s.iterKeys c lo hi asc).take n) ++
+        listed c s ((s.iterKeys c lo hi asc).drop n) := by
+    rw [← listed_append, List.take_append_drop]
+  rw [this]
+  exact List.Sublist.append (List.Sublist.refl _) (listedSess_sublist c s _)
+
+/-- a key of the range is missing from the listing only if it is deleted in an overlay or its
+    read was refused: the meter is on, ran out by the end, and the session does not hold the key -/
+theorem iterAll_missing (c : Cfg K V) (s : St K V) (lo hi : Option K) (asc : Bool) (k : K)
+    (hk : k ∈ s.iterKeys c lo hi asc) (hd : s.deleted c k = false)
+    (hmiss : (k, view c s k) ∉ (s.iterAll c lo hi asc).2) :
+    s.metered = true ∧ s.gas.limit ≤ (s.iterAll c lo hi asc).1.gas.consumed ∧
+    s.sess.bind (alookup k) = none := by
+  obtain ⟨n, _, he, hl⟩ := iterAll_cutoff c s lo hi asc
+  rw [he] at hmiss ⊢
+  simp only [List.mem_append, not_or] at hmiss
+  rw [← List.take_append_drop n (s.iterKeys c lo hi asc), List.mem_append] at hk
+  rcases hk with hk | hk
+  · exact absurd (mem_listed c s _ k hk hd) hmiss.1
+  · have hlt : n < (s.iterKeys c lo hi asc).length := by
+      by_cases h : n < (s.iterKeys c lo hi asc).length
+      · exact h
+      · rw [List.drop_eq_nil_of_le (by omega)] at hk
+        cases hk
+    refine ⟨(hl hlt).1, (hl hlt).2, ?_⟩
+    cases hs : s.sess.bind (alookup k) with
+    | none => rfl
+    | some v => exact absurd (mem_listedSess c s _ k hk hd (by simp [hs])) hmiss.2
+
 /-! ### every read only advances the gas counter -/
 
 theorem step_read_addGas (c : Cfg K V) (s : St K V) (op : Op K V) (hr : op.isRead = true) :
@@ -1246,6 +1317,10 @@ theorem step_read_addGas (c : Cfg K V) (s : St K V) (op : Op K V) (hr : op.isRea
   · next lo hi asc =>
     show ∃ d, 0 ≤ d ∧ (s.iter c lo hi asc).1 = s.addGas d
     obtain ⟨n, _, he, _⟩ := iter_cutoff c s lo hi asc
+    exact ⟨_, iterCost_nonneg c s _, by rw [he]⟩
+  · next lo hi asc =>
+    show ∃ d, 0 ≤ d ∧ (s.iterAll c lo hi asc).1 = s.addGas d
+    obtain ⟨n, _, he, _⟩ := iterAll_cutoff c s lo hi asc
     exact ⟨_, iterCost_nonneg c s _, by rw [he]⟩
   · exact ⟨0, Int.le_refl _, (addGas_zero s).symm⟩
   · exact ⟨0, Int.le_refl _, (addGas_zero s).symm⟩
@@ -1357,6 +1432,63 @@ theorem run_session_writes_gen (c : Cfg K V) (s : St K V)
       rw [h']
       simp [St.addGas, Int.add_assoc]
 
+/-! ### insertion sort (moved here from OLP/Shell/LemmasB.lean: C01 and C09 both use it) -/
+
+theorem insertKey_perm (lt : K → K → Bool) (k : K) (l : List K) :
+    (insertKey lt k l).Perm (k :: l) := by
+  induction l with
+  | nil => exact List.Perm.refl _
+  | cons h t ih =>
+    unfold insertKey
+    split
+    · exact List.Perm.refl _
+    · exact (List.Perm.cons h ih).trans (List.Perm.swap k h t)
+
+theorem sortKeys_perm (lt : K → K → Bool) (l : List K) : (sortKeys lt l).Perm l := by
+  induction l with
+  | nil => exact List.Perm.refl _
+  | cons h t ih =>
+    show (insertKey lt h (sortKeys lt t)).Perm (h :: t)
+    exact (insertKey_perm lt h _).trans (List.Perm.cons h ih)
+
+theorem insertKey_sorted (lt : K → K → Bool)
+    (irrefl : ∀ a, lt a a = false)
+    (trans : ∀ a b c, lt a b = true → lt b c = true → lt a c = true)
+    (k : K) (l : List K) (hl : l.Pairwise (fun a b => lt b a = false)) :
+    (insertKey lt k l).Pairwise (fun a b => lt b a = false) := by
+  induction l with
+  | nil => simp [insertKey]
+  | cons h t ih =>
+    have hl' := List.pairwise_cons.mp hl
+    unfold insertKey
+    split
+    · next hkh =>
+      refine List.pairwise_cons.mpr ⟨?_, hl⟩
+      intro b hb
+      rcases List.mem_cons.mp hb with rfl | hb
+      · cases hbk : lt b k with
+        | false => rfl
+        | true => have := trans _ _ _ hkh hbk; rw [irrefl] at this; cases this
+      · cases hbk : lt b k with
+        | false => rfl
+        | true =>
+          have := trans _ _ _ hbk hkh
+          rw [hl'.1 b hb] at this; cases this
+    · next hkh =>
+      refine List.pairwise_cons.mpr ⟨?_, ih hl'.2⟩
+      intro b hb
+      rcases List.mem_cons.mp ((insertKey_perm lt k t).subset hb) with rfl | hb
+      · simpa using hkh
+      · exact hl'.1 b hb
+
+theorem sortKeys_sorted (lt : K → K → Bool)
+    (irrefl : ∀ a, lt a a = false)
+    (trans : ∀ a b c, lt a b = true → lt b c = true → lt a c = true)
+    (l : List K) : (sortKeys lt l).Pairwise (fun a b => lt b a = false) := by
+  induction l with
+  | nil => exact List.Pairwise.nil
+  | cons h t ih => exact insertKey_sorted lt irrefl trans h _ ih
+
 /-! ### the keys of a range -/
 
 theorem mem_insertKey (lt : K → K → Bool) (k x : K) (l : List K) :
@@ -1406,5 +1538,343 @@ theorem mem_listed_iff (c : Cfg K V) (s : St K V) (ks : List K) (p : K × Option
     exact ⟨hk, hd, rfl⟩
   · rintro ⟨hk, hd, hv⟩
     exact ⟨p.1, ⟨hk, hd⟩, by rw [← hv]⟩
+
+/-! ### the keys `iterAll` visits (`State.IterateRangeAll`) -/
+
+theorem nodup_eraseDups : ∀ (l : List K), l.eraseDups.Nodup
+  | [] => by simp
+  | a :: as => by
+    rw [List.eraseDups_cons, List.nodup_cons]
+    refine ⟨?_, nodup_eraseDups _⟩
+    intro h
+    rw [List.mem_eraseDups, List.mem_filter] at h
+    simp at h
+termination_by l => l.length
+decreasing_by
+  simp only [List.length_cons]
+  exact Nat.lt_succ_of_le (List.length_filter_le _ _)
+
+theorem iterKeys_eq (c : Cfg K V) (s : St K V) (lo hi : Option K) (asc : Bool) :
+    s.iterKeys c lo hi asc = dir asc (sortKeys c.lt (s.allKeys.eraseDups.filter (inRange c lo hi))) :=
+  rfl
+
+theorem mem_dir (asc : Bool) (ks : List K) (k : K) : k ∈ dir asc ks ↔ k ∈ ks := by
+  cases asc <;> simp [dir]
+
+theorem nodup_dir (asc : Bool) (ks : List K) : (dir asc ks).Nodup ↔ ks.Nodup := by
+  cases asc
+  · exact (List.reverse_perm ks).nodup_iff
+  · exact Iff.rfl
+
+theorem filter_dir (asc : Bool) (p : K → Bool) (ks : List K) :
+    (dir asc ks).filter p = dir asc (ks.filter p) := by
+  cases asc <;> simp [dir, List.filter_reverse]
+
+/-- the keys iteration visits: exactly the keys some layer holds that lie in `[lo, hi)` -/
+theorem mem_iterKeys (c : Cfg K V) (s : St K V) (lo hi : Option K) (asc : Bool) (k : K) :
+    k ∈ s.iterKeys c lo hi asc ↔ k ∈ s.allKeys ∧ inRange c lo hi k = true := by
+  rw [iterKeys_eq, mem_dir, mem_sortKeys, List.mem_filter, List.mem_eraseDups]
+
+theorem nodup_iterKeys (c : Cfg K V) (s : St K V) (lo hi : Option K) (asc : Bool) :
+    (s.iterKeys c lo hi asc).Nodup := by
+  rw [iterKeys_eq, nodup_dir, (sortKeys_perm c.lt _).nodup_iff]
+  exact List.Nodup.sublist List.filter_sublist (nodup_eraseDups _)
+
+theorem sortedDir_dir (lt : K → K → Bool) (asc : Bool) (ks : List K)
+    (h : ks.Pairwise (fun a b => lt b a = false)) : SortedDir lt asc (dir asc ks) := by
+  cases asc
+  · simp only [SortedDir, dir, Bool.false_eq_true, if_false]
+    rw [List.pairwise_reverse]
+    exact h
+  · simpa [SortedDir, dir] using h
+
+theorem sorted_iterKeys (c : Cfg K V) (ho : StrictTotal c.lt) (s : St K V) (lo hi : Option K)
+    (asc : Bool) : SortedDir c.lt asc (s.iterKeys c lo hi asc) := by
+  rw [iterKeys_eq]
+  exact sortedDir_dir c.lt asc _ (sortKeys_sorted c.lt ho.irrefl ho.trans _)
+
+theorem mem_allKeys (s : St K V) (k : K) :
+    k ∈ s.allKeys ↔ k ∈ akeys s.tree.working ∨ k ∈ akeys s.cache ∨
+      ∃ o, s.sess = some o ∧ k ∈ akeys o := by
+  unfold St.allKeys
+  cases s.sess with
+  | none => simp
+  | some o => simp
+
+/-- a key is visible to a reader iff some layer holds it and no overlay deletes it -/
+theorem visible_iff (c : Cfg K V) (s : St K V) (k : K) :
+    (view c s k).isSome = true ↔ k ∈ s.allKeys ∧ s.deleted c k = false := by
+  rw [mem_allKeys]
+  cases hs : s.sess.bind (alookup k) with
+  | some v =>
+    have hmem : ∃ o, s.sess = some o ∧ k ∈ akeys o := by
+      cases ho : s.sess with
+      | none => rw [ho] at hs; cases hs
+      | some o =>
+        rw [ho] at hs
+        exact ⟨o, rfl, (mem_akeys_iff_alookup o k).mpr (by simpa using congrArg Option.isSome hs)⟩
+    by_cases hv : v = c.tomb <;> simp [view, St.deleted, dec, hs, hv, hmem]
+  | none =>
+    have hns : ¬ ∃ o, s.sess = some o ∧ k ∈ akeys o := by
+      rintro ⟨o, ho, hk⟩
+      rw [ho] at hs
+      have := (mem_akeys_iff_alookup o k).mp hk
+      simp only [Option.bind_some] at hs
+      rw [hs] at this; cases this
+    cases hc : alookup k s.cache with
+    | some v =>
+      have hmem : k ∈ akeys s.cache := (mem_akeys_iff_alookup _ k).mpr (by rw [hc]; rfl)
+      by_cases hv : v = c.tomb <;> simp [view, blockView, St.deleted, dec, hs, hc, hv, hmem]
+    | none =>
+      have hnc : k ∉ akeys s.cache := fun h => by
+        have := (mem_akeys_iff_alookup _ k).mp h
+        rw [hc] at this; cases this
+      simp only [view, blockView, St.deleted, hs, hc, Tree.get, hns, hnc, or_false, and_true]
+      exact (mem_akeys_iff_alookup _ k).symm
+
+theorem not_deleted_eq_visible (c : Cfg K V) (s : St K V) (lo hi : Option K) (asc : Bool) (k : K)
+    (hk : k ∈ s.iterKeys c lo hi asc) : (!s.deleted c k) = (view c s k).isSome := by
+  have hall := ((mem_iterKeys c s lo hi asc k).mp hk).1
+  have h := visible_iff c s k
+  cases hd : s.deleted c k with
+  | true =>
+    cases hv : (view c s k).isSome with
+    | false => rfl
+    | true => rw [hd] at h; exact absurd (h.mp hv).2 (by simp)
+  | false =>
+    rw [hd] at h
+    rw [h.mpr ⟨hall, rfl⟩]; rfl
+
+theorem listed_iterKeys (c : Cfg K V) (s : St K V) (lo hi : Option K) (asc : Bool) :
+    listed c s (s.iterKeys c lo hi asc) =
+      (visKeys c s lo hi asc).map (fun k => (k, view c s k)) := by
+  unfold listed visKeys
+  rw [List.filter_congr (fun k hk => not_deleted_eq_visible c s lo hi asc k hk)]
+
+theorem map_fst_pairs (f : K → Option V) (ks : List K) :
+    (ks.map (fun k => (k, f k))).map Prod.fst = ks := by
+  induction ks with
+  | nil => rfl
+  | cons a t ih => simp [ih]
+
+theorem mem_visKeys (c : Cfg K V) (s : St K V) (lo hi : Option K) (asc : Bool) (k : K) :
+    k ∈ visKeys c s lo hi asc ↔ inRange c lo hi k = true ∧ (view c s k).isSome = true := by
+  unfold visKeys
+  rw [List.mem_filter, mem_iterKeys]
+  constructor
+  · rintro ⟨⟨_, hr⟩, hv⟩; exact ⟨hr, hv⟩
+  · rintro ⟨hr, hv⟩; exact ⟨⟨((visible_iff c s k).mp hv).1, hr⟩, hv⟩
+
+theorem nodup_visKeys (c : Cfg K V) (s : St K V) (lo hi : Option K) (asc : Bool) :
+    (visKeys c s lo hi asc).Nodup :=
+  List.Nodup.sublist List.filter_sublist (nodup_iterKeys c s lo hi asc)
+
+theorem sorted_visKeys (c : Cfg K V) (ho : StrictTotal c.lt) (s : St K V) (lo hi : Option K)
+    (asc : Bool) : SortedDir c.lt asc (visKeys c s lo hi asc) :=
+  List.Pairwise.filter _ (sorted_iterKeys c ho s lo hi asc)
+
+/-- two sorted lists with the same elements are equal -/
+theorem sorted_perm_eq (lt : K → K → Bool) (ho : StrictTotal lt) (l₁ l₂ : List K)
+    (h1 : l₁.Pairwise (fun a b => lt b a = false)) (h2 : l₂.Pairwise (fun a b => lt b a = false))
+    (hp : l₁.Perm l₂) : l₁ = l₂ := by
+  refine List.Perm.eq_of_pairwise (le := fun a b => lt b a = false) ?_ h1 h2 hp
+  intro a b _ _ hab hba
+  apply Classical.byContradiction
+  intro hne
+  rcases ho.total a b hne with h | h
+  · rw [h] at hba; cases hba
+  · rw [h] at hab; cases hab
+
+/-- the visible keys are THE sorted duplicate-free list of the keys in range a reader can see -/
+theorem visKeys_unique (c : Cfg K V) (ho : StrictTotal c.lt) (s : St K V) (lo hi : Option K)
+    (asc : Bool) (L : List K) (hn : L.Nodup)
+    (hL : ∀ k, k ∈ L ↔ inRange c lo hi k = true ∧ (view c s k).isSome = true) :
+    visKeys c s lo hi asc = dir asc (sortKeys c.lt L) := by
+  unfold visKeys
+  rw [iterKeys_eq, filter_dir]
+  congr 1
+  refine sorted_perm_eq c.lt ho _ _
+    (List.Pairwise.filter _ (sortKeys_sorted c.lt ho.irrefl ho.trans _))
+    (sortKeys_sorted c.lt ho.irrefl ho.trans _) ?_
+  refine ((sortKeys_perm c.lt _).filter _).trans (List.Perm.trans ?_ (sortKeys_perm c.lt L).symm)
+  rw [List.perm_ext_iff_of_nodup
+    (List.Nodup.sublist List.filter_sublist
+      (List.Nodup.sublist List.filter_sublist (nodup_eraseDups _))) hn]
+  intro k
+  rw [hL, List.mem_filter, List.mem_filter, List.mem_eraseDups]
+  constructor
+  · rintro ⟨⟨_, hr⟩, hv⟩; exact ⟨hr, hv⟩
+  · rintro ⟨hr, hv⟩; exact ⟨⟨((visible_iff c s k).mp hv).1, hr⟩, hv⟩
+
+/-- with gas for all the reads (an unmetered state needs none) an iteration lists exactly the
+    visible keys of the range, each with the value of the view -/
+theorem iterAll_enough_gas_visible (c : Cfg K V) (s : St K V) (lo hi : Option K) (asc : Bool)
+    (h : s.metered = true → s.gas.consumed + iterCost c s (s.iterKeys c lo hi asc) ≤ s.gas.limit) :
+    s.iterAll c lo hi asc =
+      (s.addGas (iterCost c s (s.iterKeys c lo hi asc)),
+       (visKeys c s lo hi asc).map (fun k => (k, view c s k))) := by
+  rw [iterAll_eq_foldl, iter_foldl_enough_gas c _ s [] h, listed_iterKeys]
+  simp
+
+/-- a listed pair belongs to a visible key -/
+theorem iterAll_listed_visible (c : Cfg K V) (s : St K V) (lo hi : Option K) (asc : Bool)
+    (p : K × Option V) (hp : p ∈ (s.iterAll c lo hi asc).2) :
+    p.2 = view c s p.1 ∧ p.1 ∈ visKeys c s lo hi asc := by
+  have h := (iterAll_sublist c s lo hi asc).subset hp
+  rw [listed_iterKeys] at h
+  obtain ⟨k, hk, rfl⟩ := List.mem_map.mp h
+  exact ⟨rfl, hk⟩
+
+/-- a visible key of the range is listed, unless its read is refused -/
+theorem iterAll_visible_listed (c : Cfg K V) (s : St K V) (lo hi : Option K) (asc : Bool) (k : K)
+    (hr : inRange c lo hi k = true) (hv : (view c s k).isSome = true) :
+    (k, view c s k) ∈ (s.iterAll c lo hi asc).2 ∨
+    (s.metered = true ∧ s.gas.limit ≤ (s.iterAll c lo hi asc).1.gas.consumed ∧
+      s.sess.bind (alookup k) = none) := by
+  by_cases hm : (k, view c s k) ∈ (s.iterAll c lo hi asc).2
+  · exact Or.inl hm
+  · have hvis := (visible_iff c s k).mp hv
+    exact Or.inr (iterAll_missing c s lo hi asc k
+      ((mem_iterKeys c s lo hi asc k).mpr ⟨hvis.1, hr⟩) hvis.2 hm)
+
+theorem inRange_iff (c : Cfg K V) (lo hi : Option K) (k : K) :
+    inRange c lo hi k = true ↔
+      (∀ l, lo = some l → c.lt k l = false) ∧ (∀ h, hi = some h → c.lt k h = true) := by
+  unfold inRange
+  cases lo <;> cases hi <;> simp
+
+/-! ### `iterAll` and `iter` -/
+
+theorem eraseDups_of_nodup : ∀ (l : List K), l.Nodup → l.eraseDups = l
+  | [], _ => by simp
+  | a :: as, h => by
+    have h' := List.nodup_cons.mp h
+    have hf : as.filter (fun b => !b == a) = as := by
+      rw [List.filter_eq_self]
+      intro b hb
+      have : b ≠ a := fun e => h'.1 (e ▸ hb)
+      simp [this]
+    rw [List.eraseDups_cons, hf, eraseDups_of_nodup as h'.2]
+
+theorem iterKeys_nothing_pending (c : Cfg K V) (s : St K V) (hc : s.cache = []) (hs : s.sess = none)
+    (hn : (akeys s.tree.working).Nodup) (lo hi : Option K) (asc : Bool) :
+    s.iterKeys c lo hi asc = s.tree.rangeKeys c lo hi asc := by
+  have ha : s.allKeys = akeys s.tree.working := by
+    simp [St.allKeys, hc, hs, akeys]
+  rw [iterKeys_eq, ha, eraseDups_of_nodup _ hn]
+  rfl
+
+theorem iterAll_eq_iter_nothing_pending (c : Cfg K V) (s : St K V) (hc : s.cache = [])
+    (hs : s.sess = none) (hn : (akeys s.tree.working).Nodup) (lo hi : Option K) (asc : Bool) :
+    s.iterAll c lo hi asc = s.iter c lo hi asc := by
+  rw [iterAll_eq_foldl, iter_eq_foldl, iterKeys_nothing_pending c s hc hs hn]
+
+theorem rangeKeys_subset_iterKeys (c : Cfg K V) (s : St K V) (lo hi : Option K) (asc : Bool) (k : K)
+    (hk : k ∈ s.tree.rangeKeys c lo hi asc) : k ∈ s.iterKeys c lo hi asc := by
+  have h := (mem_rangeKeys c s.tree lo hi asc k).mp hk
+  rw [mem_iterKeys, inRange_iff, mem_allKeys]
+  exact ⟨Or.inl h.1, h.2⟩
+
+/-- what `iter` lists `iterAll` lists too, unless the meter refuses it there -/
+theorem iter_listed_iterAll (c : Cfg K V) (s : St K V) (lo hi : Option K) (asc : Bool)
+    (p : K × Option V) (hp : p ∈ (s.iter c lo hi asc).2) :
+    p ∈ (s.iterAll c lo hi asc).2 ∨
+    (s.metered = true ∧ s.gas.limit ≤ (s.iterAll c lo hi asc).1.gas.consumed ∧
+      s.sess.bind (alookup p.1) = none) := by
+  have h := (mem_listed_iff c s _ p).mp ((iter_sublist c s lo hi asc).subset hp)
+  have hk := rangeKeys_subset_iterKeys c s lo hi asc p.1 h.1
+  by_cases hm : (p.1, view c s p.1) ∈ (s.iterAll c lo hi asc).2
+  · left
+    have : p = (p.1, view c s p.1) := by rw [← h.2.2]
+    rw [this]; exact hm
+  · exact Or.inr (iterAll_missing c s lo hi asc p.1 hk h.2.1 hm)
+
+/-! ### trees hold no key twice -/
+
+theorem akeys_aerase (l : List (K × V)) (k : K) : (akeys (aerase l k)).Sublist (akeys l) := by
+  induction l with
+  | nil => exact List.Sublist.refl _
+  | cons hd t ih =>
+    obtain ⟨k', v'⟩ := hd
+    unfold aerase
+    split
+    · exact ih.cons _
+    · exact ih.cons_cons _
+
+theorem set_keysNodup (t : Tree K V) (k : K) (v : V) (h : t.KeysNodup) : (t.set k v).KeysNodup :=
+  ⟨nodup_akeys_upsert _ _ _ h.1, h.2⟩
+
+theorem remove_keysNodup (t : Tree K V) (k : K) (h : t.KeysNodup) : (t.remove k).KeysNodup :=
+  ⟨List.Nodup.sublist (akeys_aerase _ _) h.1, h.2⟩
+
+theorem writeInto_keysNodup (c : Cfg K V) (cache : List (K × V)) (t : Tree K V)
+    (h : t.KeysNodup) : (writeInto c t cache).KeysNodup := by
+  induction cache generalizing t with
+  | nil => exact h
+  | cons p tl ih =>
+    simp only [writeInto, List.foldl_cons]
+    have := ih (if p.2 = c.tomb then t.remove p.1 else t.set p.1 p.2)
+      (by split
+          · exact remove_keysNodup t _ h
+          · exact set_keysNodup t _ _ h)
+    simpa only [writeInto] using this
+
+theorem deleteVersion_keysNodup (t : Tree K V) (rel : Int) (h : t.KeysNodup) :
+    (t.deleteVersion rel).KeysNodup := by
+  have hf := deleteVersion_fields t rel
+  unfold Tree.KeysNodup
+  rw [hf.1]
+  refine ⟨h.1, ?_⟩
+  rcases deleteVersion_versions t rel with hv | ⟨_, hv⟩ <;> rw [hv]
+  · exact h.2
+  · intro p hp; exact h.2 p (List.mem_filter.mp hp).1
+
+theorem saved_keysNodup (t : Tree K V) (h : t.KeysNodup) : t.saved.KeysNodup := by
+  refine ⟨h.1, ?_⟩
+  intro p hp
+  simp only [Tree.saved, List.mem_append, List.mem_singleton] at hp
+  rcases hp with hp | rfl
+  · exact h.2 p hp
+  · exact h.1
+
+theorem commit_keysNodup (t : Tree K V) (h : t.KeysNodup) : t.commit.KeysNodup := by
+  have hs := saved_keysNodup t h
+  rcases commit_cases t with e | ⟨r, e⟩ | ⟨r1, r2, e⟩ <;> rw [e]
+  · exact hs
+  · exact deleteVersion_keysNodup _ _ hs
+  · exact deleteVersion_keysNodup _ _ (deleteVersion_keysNodup _ _ hs)
+
+theorem reopen_keysNodup (t : Tree K V) (h : t.KeysNodup) : t.reopen.KeysNodup := by
+  unfold Tree.reopen
+  simp only []
+  split
+  · next p hp => exact ⟨h.2 p (List.mem_of_find?_eq_some hp), h.2⟩
+  · exact ⟨by simp [akeys], h.2⟩
+
+theorem step_keysNodup (c : Cfg K V) (s : St K V) (h : s.tree.KeysNodup) (op : Op K V) :
+    (step c s op).1.tree.KeysNodup := by
+  cases op with
+  | newState l => cases l <;> exact h
+  | set k v =>
+    show (s.set c k v).1.tree.KeysNodup
+    rw [(set_data c s k v).1]; exact h
+  | del k =>
+    show (s.del c k).tree.KeysNodup
+    rw [(del_data c s k).1]; exact h
+  | get k => rw [(step_read_gasOnly c s (.get k) rfl).1]; exact h
+  | has k => rw [(step_read_gasOnly c s (.has k) rfl).1]; exact h
+  | iter lo hi asc => rw [(step_read_gasOnly c s (.iter lo hi asc) rfl).1]; exact h
+  | iterAll lo hi asc => rw [(step_read_gasOnly c s (.iterAll lo hi asc) rfl).1]; exact h
+  | begin => exact h
+  | csess =>
+    cases hs : s.sess with
+    | none => rw [step_csess_none c s hs]; exact h
+    | some o => rw [step_csess_some c s o hs]; exact h
+  | dsess => exact h
+  | write => exact writeInto_keysNodup c s.cache s.tree h
+  | commit => exact commit_keysNodup _ (writeInto_keysNodup c s.cache s.tree h)
+  | reopen => exact reopen_keysNodup s.tree h
+  | getv ver k => exact h
+  | gas => exact h
 
 end OLP.KV
